@@ -23,6 +23,15 @@ func Union(c explore.Chooser) *prog.Program {
 
 	homonym := s.Pick("homonym", "none", "square-in-sub")
 	shapeFile := s.Pick("Shape.file", "analysed", "other")
+	// the package clause of the sub package: its own name, or the name of the root package (two
+	// packages of one name on two import paths; the importers then name it sub explicitly)
+	subClause := s.Pick("sub.pkgname", "sub", "un")
+	subImp := func(path string) string {
+		if subClause == "sub" {
+			return fmt.Sprintf("%q", path)
+		}
+		return fmt.Sprintf("sub %q", path)
+	}
 
 	var a, b, sub strings.Builder
 	needSub := false
@@ -225,24 +234,24 @@ func Union(c explore.Chooser) *prog.Program {
 	asrc := a.String()
 	if second == "in-module-root" {
 		if needSub && strings.Contains(asrc, "sub.") {
-			hdr += fmt.Sprintf("import (\n\t%q\n\t%q\n)\n\n", prog.Module, subPath)
+			hdr += fmt.Sprintf("import (\n\t%q\n\t%s\n)\n\n", prog.Module, subImp(subPath))
 		} else {
 			hdr += fmt.Sprintf("import %q\n\n", prog.Module)
 		}
 	} else if second == "in-sub-diamond" {
-		hdr += fmt.Sprintf("import (\n\t%q\n\t%q\n)\n\n", rootPath+"/mid", subPath)
+		hdr += fmt.Sprintf("import (\n\t%q\n\t%s\n)\n\n", rootPath+"/mid", subImp(subPath))
 	} else if needSub && strings.Contains(asrc, "sub.") {
-		hdr += fmt.Sprintf("import %q\n\n", subPath)
+		hdr += fmt.Sprintf("import %s\n\n", subImp(subPath))
 	}
 	p := &prog.Program{Family: "F-union", Analysed: []string{"a.go"}, Features: s.Feats}
 	if needSub {
-		p.Pkgs = append(p.Pkgs, &prog.Pkg{Path: subPath, Name: "sub", Files: []prog.File{{Name: "sub.go", Src: "package sub\n\n" + sub.String()}}})
+		p.Pkgs = append(p.Pkgs, &prog.Pkg{Path: subPath, Name: subClause, Files: []prog.File{{Name: "sub.go", Src: "package " + subClause + "\n\n" + sub.String()}}})
 	}
 	if second == "in-module-root" {
 		p.Pkgs = append(p.Pkgs, &prog.Pkg{Path: prog.Module, Name: "proj", Files: []prog.File{{Name: "beasts.go", Src: "package proj\n\ntype Beast interface {\n\tisBeast()\n}\n\ntype Lion struct {\n\tMane int\n}\n\nfunc (Lion) isBeast() {}\n\ntype Wolf struct {\n\tPack string\n}\n\nfunc (Wolf) isBeast() {}\n"}}})
 	}
 	if second == "in-sub-diamond" {
-		p.Pkgs = append(p.Pkgs, &prog.Pkg{Path: rootPath + "/mid", Name: "mid", Files: []prog.File{{Name: "mid.go", Src: "package mid\n\nimport \"" + subPath + "\"\n\ntype Kennel struct {\n\tDogs []sub.Dog\n}\n"}}})
+		p.Pkgs = append(p.Pkgs, &prog.Pkg{Path: rootPath + "/mid", Name: "mid", Files: []prog.File{{Name: "mid.go", Src: "package mid\n\nimport " + subImp(subPath) + "\n\ntype Kennel struct {\n\tDogs []sub.Dog\n}\n"}}})
 	}
 	bsrc := "package un\n\n" + b.String()
 	if needSub && !strings.Contains(asrc, "sub.") {
